@@ -497,6 +497,89 @@ class CliNetworks(Part):
         return res
 
 
+class SecondAnonymizer(Part):
+    name = "after_an_anonymizer_with_other_networks"
+    desc = "every ordered pair of (preserved networks) configurations used one after the other in one process: the mapping the second one applies to text is still one prefix-preserving injection"
+
+    MENU = [None, ["20.0.0.0/8"], ["11.11.0.0/16", "200.7.6.5/32"], ["10.0.0.0/8", "172.16.0.0/12", "192.168.0.0/16"]]
+
+    def __init__(self, tier, seed):
+        self.tier, self.seed = tier, seed
+
+    def cases(self):
+        return [{"first": i, "entry": e, "B": B} for i in range(len(self.MENU)) for e in ("line", "FileAnonymizer", "main")
+                for B in (0, 8)]
+
+    def _run(self, nets, entry, B, text, root, tag):
+        import io
+        import os
+
+        from mc import seams
+        from netconan.anonymize_files import FileAnonymizer
+
+        with seams.capture_logs(), seams.capture_stdio():
+            if entry == "line":
+                m = ipdom.mod()
+                an = m.IpAnonymizer("saltForTest", None, None if nets is None else list(nets), preserve_suffix=B)
+                return "".join(m.anonymize_ip_addr(an, ln, False) for ln in text.splitlines(True))
+            if entry == "FileAnonymizer":
+                out = io.StringIO()
+                FileAnonymizer(anon_pwd=False, anon_ip=True, salt="saltForTest", preserve_networks=None if nets is None else list(nets),
+                               preserve_suffix_v4=B, preserve_suffix_v6=B).anonymize_io(io.StringIO(text), out)
+                return out.getvalue()
+            from netconan.netconan import main
+
+            ind, outd = os.path.join(root, "i" + tag), os.path.join(root, "o" + tag)
+            seams.write_tree(ind, {"a.cfg": text})
+            main(["-a", "-s", "saltForTest", "--preserve-host-bits", str(B), "-i", ind, "-o", outd]
+                 + (["--preserve-addresses", ",".join(nets)] if nets else []))
+            return (seams.read_tree(outd).get("a.cfg") or b"").decode()
+
+    def run(self, case):
+        import shutil
+
+        from mc import seams
+
+        res = Res()
+        root = seams.scratch_dir("c01s")
+        try:
+            addrs = set(ipdom.v4_window(self.seed, 3)[::7])
+            forgot = ipdom.make_v4(["md5", "saltForTest"], case["B"], None, None)
+            for nl in self.MENU:
+                for n in nl or []:
+                    n = ipaddress.ip_network(n)
+                    lo, hi = int(n.network_address), int(n.broadcast_address)
+                    for x in (lo, hi, lo + 1, (lo + hi) // 2, lo - 1, hi + 1):
+                        addrs.add(x & 0xFFFFFFFF)
+                    for y in (lo, hi, (lo + hi) // 2):
+                        addrs.add(forgot.deanonymize(y))
+            addrs = sorted(a for a in addrs if not refs.is_mask32(a))
+            text = "".join("h %s e\n" % refs.v4_text(a) for a in addrs)
+            for j in ([case["second"]] if "second" in case else range(len(self.MENU))):
+                seams.restore_globals()
+                self._run(self.MENU[case["first"]], case["entry"], case["B"], text, root, "a%d" % j)
+                got = self._run(self.MENU[j], case["entry"], case["B"], text, root, "b%d" % j)
+                seams.restore_globals()
+                res.states += 1
+                res.transitions += 2
+                toks = [ln.split()[1] for ln in got.splitlines()]
+                eff = [(a, refs.v4_token_value(t) if refs.v4_token_value(t) is not None else -1) for a, t in zip(addrs, toks)]
+                res.evals += len(eff)
+                res.nt((case["first"], j, case["entry"], case["B"]))
+                res.out(tuple(v for _, v in eff[:12]))
+                bad = check_map(eff, 32)
+                if bad or len(toks) != len(addrs):
+                    res.violation("cpl-not-preserved-by-applied-mapping|after-another-anonymizer|" + case["entry"],
+                                  "after an anonymizer preserving %r, one preserving %r (host bits %d): %s" % (
+                                      self.MENU[case["first"]], self.MENU[j], case["B"], bad[1] if bad else "line count"),
+                                  dict(case, second=j))
+            if "second" not in case:
+                res.samples.append({"first": self.MENU[case["first"]], "entry": case["entry"], "addresses": len(addrs)})
+        finally:
+            shutil.rmtree(root, ignore_errors=True)
+        return res
+
+
 def parts(tier, seed):
     return [SmallWidth(tier, seed), FullWidth(tier, seed), LazyReal(tier, seed), StatesPart(tier, seed),
-            LongHistory(tier, seed), FilePipeline(tier, seed), CliNetworks(tier, seed)]
+            LongHistory(tier, seed), FilePipeline(tier, seed), CliNetworks(tier, seed), SecondAnonymizer(tier, seed)]
